@@ -277,7 +277,26 @@ fn limits(run: &Arc<Run>) {
         ("one-huge-item", vec![(2, 0, (0..16000).map(|x| x as i32).collect())], vec![(2, 0, (0..16000).map(|x| (x as i32).wrapping_mul(7919)).collect())]),
         ("near-64KiB", mk(500, 30, 0), mk(500, 30, -1)),
     ];
+    // how many keys the two snapshots share is a dimension of its own: a delta lists the keys only
+    // the old snapshot has plus every item of the new one, so its header counts add up to as much
+    // as 2048 for two full snapshots without a common key
+    let mk_from = |first: usize, n: usize, shift: i32| -> Vec<(u16, u16, Vec<i32>)> { (first..first + n).map(|i| (2 + (i % 3) as u16, i as u16, vec![(i * 31) as i32 ^ shift])).collect() };
+    let mut cases: Vec<(String, Vec<(u16, u16, Vec<i32>)>, Vec<(u16, u16, Vec<i32>)>)> = cases.into_iter().map(|(n, a, b)| (n.to_string(), a, b)).collect();
+    let counts = [0usize, 1, 511, 512, 513, 600, 1023, 1024];
+    for &na in &counts {
+        for &nb in &counts {
+            let m = na.min(nb);
+            for shared in [0, m / 2, m] {
+                if shared > 0 && shared == m && m == 0 {
+                    continue;
+                }
+                // the new snapshot starts `na - shared` keys into the old one
+                cases.push((format!("keys:{}-to-{}-sharing-{}", na, nb, shared), mk_from(0, na, 0), mk_from(na - shared, nb, 0x33)));
+            }
+        }
+    }
     for (name, a, b) in cases {
+        let name = &name[..];
         run.add_evals(1);
         let r = vp_core::catch(|| -> Result<(), String> {
             let sa = build_raw(&a);
@@ -296,7 +315,7 @@ fn limits(run: &Arc<Run>) {
             Ok(())
         });
         match r {
-            Ok(Ok(())) => run.class(&format!("limit:{}", name), || json!({"from_items": a.len(), "to_items": b.len()})),
+            Ok(Ok(())) => run.class(&format!("limit:{}", if name.starts_with("keys:") { "shared-key-grid" } else { name }), || json!({"family": name, "from_items": a.len(), "to_items": b.len()})),
             Ok(Err(d)) => {
                 run.violation("c09:limit-family", &format!("{}: {}", name, d), json!({"family": name}));
             }
@@ -339,7 +358,7 @@ fn main() {
     run.assume("comparison with the DDNet reference is restricted to the reference's own domain (type ids <= 0x3fff, static sizes only for types < 64); outside it the reference aborts the process");
     run.assume("the comparison with the reference hands the items to both builders in ascending key order; the create/apply/wire oracles are additionally run with the items inserted in descending and rotated order");
     run.finish(
-        "all ordered pairs of all snapshots over universes of 4 and 5 keys, each key absent or carrying one of 3 (quick) / 4 (thorough) data vectors (lengths 0..3, values from {0,1,-1,MIN,MAX,0x12345678}; type 1 has a pre-agreed size; one universe pre-agrees the size of every type, below and above 0x4000 and 0x8000): delta create -> apply, via bytes, via ints (every Delta / snapshot object involved is a reused one that held other content before), DDNet reference delta applied here, serialization compared with the reference builder; the same pairs with the items inserted in descending / rotated order (create -> apply, via bytes, via ints); plus limit families (1024 items, ~64 KiB)",
+        "all ordered pairs of all snapshots over universes of 4 and 5 keys, each key absent or carrying one of 3 (quick) / 4 (thorough) data vectors (lengths 0..3, values from {0,1,-1,MIN,MAX,0x12345678}; type 1 has a pre-agreed size; one universe pre-agrees the size of every type, below and above 0x4000 and 0x8000): delta create -> apply, via bytes, via ints (every Delta / snapshot object involved is a reused one that held other content before), DDNet reference delta applied here, serialization compared with the reference builder; the same pairs with the items inserted in descending / rotated order (create -> apply, via bytes, via ints); plus limit families (1024 items, ~64 KiB) and a grid of snapshot pairs with 0..1024 items each that share none, half or all of their keys (up to 1024 deleted plus 1024 updated items in one delta)",
         true,
     );
 }
